@@ -72,7 +72,7 @@ func C11(app string, entry EntryFunc, display bool) func(*hx.Ctx) *hx.Outcome {
 		segs, wire, _ := appStream(c, o, 1)
 		o.ScenHash = gnss.Hash(wire)
 		sink := genSink(t, "out")
-		src := &env.Source{T: t, Data: wire, MaxChunk: []int{1, 16, 512, 4096}[t.S(4)]}
+		src := &env.Source{T: t, Data: wire, MaxChunk: []int{1, 16, 512, 4096}[t.S(4)], DataWithErr: t.SBool(1, 3)}
 		cfg := jsonconfig.Config{}
 		if !display {
 			cfg.MessageLogDirectory = c.TempDir()
@@ -160,7 +160,7 @@ func C10(entry EntryFunc) func(*hx.Ctx) *hx.Outcome {
 		o.ScenHash = gnss.Hash(wire) ^ uint64(sw)
 		o.Probe(fmt.Sprintf("config:display=%v,record=%v", cfg.DisplayMessages, cfg.RecordMessages))
 		sink := genSink(t, "out")
-		src := &env.Source{T: t, Data: wire, MaxChunk: []int{1, 16, 512, 4096}[t.S(4)], ZeroReads: t.SBool(1, 5)}
+		src := &env.Source{T: t, Data: wire, MaxChunk: []int{1, 16, 512, 4096}[t.S(4)], ZeroReads: t.SBool(1, 5), DataWithErr: t.SBool(1, 3)}
 		if c.Detail {
 			o.Sample = map[string]any{"segments": gnss.Describe(segs), "wire_len": len(wire), "wire_hex": hexShort(wire), "display": cfg.DisplayMessages, "record": cfg.RecordMessages,
 				"clean_stream": clean, "sink_latency": sink.Latency.String(), "sink_extra_yields": sink.ExtraYields, "max_chunk": src.MaxChunk}
